@@ -116,7 +116,7 @@ WorkerEv == {"wp.take", "wp.exit", "wp.done", "wp.deliver"}
 CallerEv == {"wp.stop.cas", "wp.stop.noop", "wp.stop.cancelled", "wp.stop.closed", "wp.stop.waited", "wp.stop.drain",
              "wp.rs.begin", "wp.rs.drain", "wp.rs.drained", "wp.rs.swapped", "wp.rs.started", "wp.rs.requeue",
              "wp.rs.fail", "wp.rs.done"}
-Ignored  == {"body.start", "body.end", "body.self", "skip", "wp.start"}
+Ignored  == {"body.start", "body.end", "body.self", "skip", "wp.start", "tick"}
 
 \* the label an event stands for (only the fields the step determines)
 LabOf(x) ==
